@@ -15,6 +15,7 @@
 #include "alloc.h"
 #include "ref_slice.h"
 #include "longpat.h"
+#include "hugestr.h"
 #include "st_string.h"
 #include "early_battery.h"
 
@@ -580,6 +581,59 @@ static void build(vf::Plan &plan, const vf::Opts &o)
                                   return strf("s=%s sep=%s", vf::vis(text).c_str(), vf::vis(sep).c_str());
                               });
         st.case_timeout_s = 10;
+    }
+    // ---- a subject of more than 2^31 bytes (positions and sizes that no longer fit an int / a 32-bit integer)
+    if (!reduced) {
+        auto &st = plan.stage("huge subject: 2^31+64 bytes (lazily mapped), slices and separators beyond position 2^31", 1,
+                              [](uint64_t, Ctx &c) {
+                                  const size_t H = size_t(1) << 31, N = H + 64;
+                                  vf::Outcome o = vf::guard([&] {
+                                      hugestr::Scope scope;
+                                      ST::string s = hugestr::make(N, [&](char *d) {
+                                          d[5] = ':';
+                                          d[H - 1] = 'X';
+                                          d[H] = 'Y';
+                                          memcpy(d + N - 10, "ab:cd:efgh", 10);
+                                      });
+                                      auto expect = [&](const char *call, const ST::string &got, const std::string &want) {
+                                          VF_COUNT("validated");
+                                          if (std::string(got.c_str(), got.size()) != want)
+                                              c.fail(strf("huge-subject:%s:value", call),
+                                                     strf("on a string of 2^31+64 bytes %s returned %zu bytes %s, expected %s", call, got.size(),
+                                                          vf::vis(std::string(got.c_str(), got.size() < 40 ? got.size() : 40)).c_str(), vf::vis(want).c_str()));
+                                      };
+                                      VF_COUNT("validated");
+                                      if (s.size() != N) c.fail("huge-subject:size", strf("size() is %zu", s.size()));
+                                      expect("substr(N-4, 4)", s.substr((ST_ssize_t)(N - 4), 4), "efgh");
+                                      expect("substr(N-4)", s.substr((ST_ssize_t)(N - 4)), "efgh");
+                                      expect("substr(-4)", s.substr(-4), "efgh");
+                                      expect("substr(-4, 2)", s.substr(-4, 2), "ef");
+                                      expect("substr(2^31-1, 2)", s.substr((ST_ssize_t)(H - 1), 2), "XY");
+                                      expect("substr(2^31, 1)", s.substr((ST_ssize_t)H, 1), "Y");
+                                      expect("substr(N, 5)", s.substr((ST_ssize_t)N, 5), "");
+                                      expect("substr(N-2, SIZE_MAX)", s.substr((ST_ssize_t)(N - 2), ~size_t(0)), "gh");
+                                      expect("right(4)", s.right(4), "efgh");
+                                      expect("right(10)", s.right(10), "ab:cd:efgh");
+                                      expect("left(6)", s.left(6), std::string("\0\0\0\0\0:", 6));
+                                      expect("after_last(':')", s.after_last(':'), "efgh");
+                                      expect("after_last(\":\")", s.after_last(":"), "efgh");
+                                      expect("after_last(ST::string(\"d:\"))", s.after_last(ST_LITERAL("d:")), "efgh");
+                                      expect("after_last(\"CD:\", case_insensitive)", s.after_last("CD:", ST::case_insensitive), "efgh");
+                                      expect("before_first(':')", s.before_first(':'), std::string(5, '\0'));
+                                      expect("before_first(\":\")", s.before_first(":"), std::string(5, '\0'));
+                                      expect("after_first('Y')", s.after_first('Y'), std::string(53, '\0') + "ab:cd:efgh");
+                                      expect("after_first(\"XY\")", s.after_first("XY"), std::string(53, '\0') + "ab:cd:efgh");
+                                      expect("after_first(\"xy\", case_insensitive)", s.after_first("xy", ST::case_insensitive), std::string(53, '\0') + "ab:cd:efgh");
+                                      expect("after_last('Q') [absent]", s.after_last('Q').left(3), std::string(3, '\0'));
+                                      expect("before_first('Q') [absent] right(4)", s.before_first('Q').right(4), "efgh");
+                                  });
+                                  if (!o.ok()) c.fail(strf("huge-subject:%s", vf::outkind_name(o.kind)), o.str());
+                                  if (vf::live_huge()) c.fail("huge-subject:leak", strf("%zu large blocks still live", vf::live_huge()));
+                                  vf::huge_reset();
+                                  c.nontrivial();
+                              },
+                              [](uint64_t) { return std::string("string of 2^31+64 bytes"); });
+        st.case_timeout_s = 300;
     }
     vf_early::add_stage(plan);
 }
